@@ -127,7 +127,7 @@ func (w *c15World) otherAssigns(f *c15Fn, P types.Object, node ast.Node) string 
 // storedBack: after the loop (position `after` dominates) the list held by local Q of env.fn is written to the
 // place the scanned updates were read from (path target, rooted in the API function), and every success return of
 // env.fn comes after that store. If env.fn is a helper, Q may instead be returned to the caller, which must store it.
-func (w *c15World) storedBack(env *c15Env, Q types.Object, target *c15Path, after func(pos token.Pos) bool, depth int) (string, string) {
+func (w *c15World) storedBack(env *c15Env, Q types.Object, target *c15Path, after func(pos token.Pos) bool, errGuard types.Object, from token.Pos, depth int) (string, string) {
 	f := env.fn
 	P := w.r.P
 	var store *ast.AssignStmt
@@ -145,6 +145,29 @@ func (w *c15World) storedBack(env *c15Env, Q types.Object, target *c15Path, afte
 		}
 		return true
 	})
+	if store != nil && errGuard != nil {
+		// the list came with an error (`q, err := helper(…)`): evaluated for err == nil every path from the call to
+		// a return passes the store; evaluated for err != nil no path executes it
+		_, b, i := f.nodeAt(from)
+		if b == nil {
+			return "", "the call that returns the list is not in the control-flow graph"
+		}
+		isStore := func(n ast.Node) bool { return n == ast.Node(store) }
+		wk := w.walk(b, i+1, c15WalkOpt{env: env, oracle: &c15Oracle{w: w, errObj: errGuard, errVal: -1}, barrier: isStore})
+		for _, ret := range wk.returns {
+			if w.retKind(f, ret) != c15RetFailure || usesObj(w.info, ret, errGuard) {
+				return "", "with a nil " + errGuard.Name() + " the return at " + P.Rel(ret.Pos()) + " is reached without `" + src(P.Fset, store) + "`"
+			}
+		}
+		if wk.implicit {
+			return "", "with a nil " + errGuard.Name() + " the end of " + f.name() + " is reached without `" + src(P.Fset, store) + "`"
+		}
+		wk = w.walk(b, i+1, c15WalkOpt{env: env, oracle: &c15Oracle{w: w, errObj: errGuard, errVal: +1}})
+		if wk.visited[store] {
+			return "", "`" + src(P.Fset, store) + "` (" + P.Rel(store.Pos()) + ") is executed also when " + errGuard.Name() + " is non-nil: the list that comes with an error replaces the pending updates"
+		}
+		return "`" + src(P.Fset, store) + "` (" + P.Rel(store.Pos()) + ") is on every path with a nil " + errGuard.Name() + " and on none with a non-nil one", ""
+	}
 	if store != nil {
 		// every success return of f is dominated by the store
 		miss := ""
@@ -161,7 +184,16 @@ func (w *c15World) storedBack(env *c15Env, Q types.Object, target *c15Path, afte
 		if miss != "" {
 			return "", "the success return at " + miss + " is not preceded by `" + src(P.Fset, store) + "`"
 		}
-		return "`" + src(P.Fset, store) + "` (" + P.Rel(store.Pos()) + ") precedes every success return of " + f.name(), ""
+		// the store must not happen on a path that reports an error: a failed call leaves the pending list as it was
+		if _, b, i := f.nodeAt(store.Pos()); b != nil {
+			wk := w.walk(b, i+1, c15WalkOpt{env: env})
+			for _, ret := range wk.returns {
+				if w.retKind(f, ret) == c15RetFailure {
+					return "", "`" + src(P.Fset, store) + "` (" + P.Rel(store.Pos()) + ") can be followed by the error return `" + src(P.Fset, ret) + "` (" + P.Rel(ret.Pos()) + "): the pending updates are replaced although the call fails"
+				}
+			}
+		}
+		return "`" + src(P.Fset, store) + "` (" + P.Rel(store.Pos()) + ") precedes every success return of " + f.name() + " and no error return follows it", ""
 	}
 	// returned to the caller?
 	if env.parent == nil || depth > 2 {
@@ -217,8 +249,18 @@ func (w *c15World) storedBack(env *c15Env, Q types.Object, target *c15Path, afte
 	if !ok || len(as.Rhs) != 1 || ast.Unparen(as.Rhs[0]) != ast.Expr(env.call) || k >= len(as.Lhs) {
 		return "", "the result of " + f.name() + " that carries the list is not assigned by the caller " + pf.name()
 	}
+	// the error that comes with the list
+	var callErr types.Object
+	if last := as.Lhs[len(as.Lhs)-1]; len(as.Lhs) > 1 {
+		if o := objOf(w.info, last); o != nil && types.Identical(o.Type(), types.Universe.Lookup("error").Type()) {
+			callErr = o
+		}
+	}
 	lp := w.pathOf(env.parent, as.Lhs[k], true)
 	if lp != nil && lp.eq(target) {
+		if callErr != nil || c15ReturnsError(f) {
+			return "", "`" + src(P.Fset, as) + "` (" + P.Rel(as.Pos()) + ") stores the list before the error of " + f.name() + " is tested: the list that comes with a non-nil error replaces the pending updates"
+		}
 		miss := ""
 		inspectNoLit(pf.fi.Decl.Body, func(n ast.Node) bool {
 			ret, ok := n.(*ast.ReturnStmt)
@@ -243,7 +285,10 @@ func (w *c15World) storedBack(env *c15Env, Q types.Object, target *c15Path, afte
 		return "", "the caller's variable " + q.Name() + " holding the list is assigned more than once"
 	}
 	callPos := as.Pos()
-	proof, why := w.storedBack(env.parent, q, target, func(pos token.Pos) bool { return pos > callPos && posDominates(pf.g, pf.dom, callPos, pos) }, depth+1)
+	if callErr == nil && c15ReturnsError(f) {
+		return "", "the error of " + f.name() + " is dropped by `" + src(P.Fset, as) + "`"
+	}
+	proof, why := w.storedBack(env.parent, q, target, func(pos token.Pos) bool { return pos > callPos && posDominates(pf.g, pf.dom, callPos, pos) }, callErr, callPos, depth+1)
 	if why != "" {
 		return "", why
 	}
@@ -270,13 +315,12 @@ func (w *c15World) applierCalls(site c15LoopSite, eff []ast.Node) []c15Apply {
 			if !ok {
 				return true
 			}
-			f := w.samePkgCallee(call)
+			f, ce := w.calleeOf(site.env, call)
 			if f == nil {
 				return true
 			}
-			ce := w.childEnv(site.env, call, f)
 			for _, arg := range ce.bind {
-				if w.isElem(site.env, site.loop, w.pathOf(site.env, arg, false)) {
+				if w.isElem(site.env, site.loop, w.pathOf(arg.env, arg.expr, false)) {
 					out = append(out, c15Apply{call: call, callee: f, node: n})
 					break
 				}
@@ -454,7 +498,7 @@ func c15U2(r *core.R) {
 					b, _ := blockOf(f.g, pos)
 					return b != nil && (b == l.done || f.dom[b][l.done])
 				}
-				proof, why := w.storedBack(site.env, Q, target, after, 0)
+				proof, why := w.storedBack(site.env, Q, target, after, nil, token.NoPos, 0)
 				if why != "" {
 					r.Bad(cp, node.Pos(), "updates after t are collected by `%s` but %s", src(r.P.Fset, node), why)
 				} else {
